@@ -104,7 +104,7 @@ def gen(rng, tier):
     reparse = 'out = ((%s) >= (%s));' % (rng.choice(vars_), sg.fmt_num(rng.choice([0.75, 2.5, 0.0, 1.0]))) if rng.random() < 0.12 else None
     sc = {'reparse': reparse, 'explicit': explicit, 'kind': kind, 'mode': mode, 'vars': vars_, 'ast': ast, 'pvc': pvc, 'pastify': pastify, 'modular': modular,
           'noise_seeds': [[rng.uniform(-1, 1) for _ in range(40)] for _ in range(3)]}
-    if kind in ('dt', 'ct') and not explicit and rng.random() < 0.3:
+    if kind in ('dt', 'ct') and not explicit and rng.random() < 0.3 and common.iastl_safe(ast):
         sc['iastl'] = {'sem': rng.choice(['output-robustness', 'input-robustness']),
                        'io': dict((v, rng.choice(['input', 'output'])) for v in vars_ if rng.random() < 0.8)}
     if dense:
